@@ -154,6 +154,53 @@ def wrapped_data_cases(keyb) -> list[eqcases.Case]:
     return out
 
 
+def batch_data_sensitivity(ctx):
+    """the key of wrapped data depends on EVERY element: arrays of sizes around plausible block boundaries
+    (2^k, 2^k +- 1, non-multiples), one element changed at the first / a middle / block-boundary / last position,
+    in C-contiguous, Fortran-ordered, strided and reversed layouts; equal contents in another layout give the
+    same key"""
+    import numpy as np
+    import pytato as pt
+    from pytato.analysis import PytatoKeyBuilder
+    keyb = PytatoKeyBuilder()
+    sizes = [1, 2, 7, 64, 255, 256, 257, 4095, 4096, 4097, 65535, 65536, 65537, 70000, 131072, 131073, 300 * 300]
+    if ctx.thorough:
+        sizes += [(1 << 20) - 1, 1 << 20, (1 << 20) + 1, 3 * (1 << 19) + 5]
+    rng = np.random.default_rng(ctx.seed + 181)
+    cases = dis = 0
+    for n in sizes:
+        for dt in (np.float64, np.int8):
+            base = rng.integers(-100, 100, size=n).astype(dt)
+            layouts = {"c": lambda a: a, "2d": lambda a: a.reshape(-1, 1) if a.size % 3 else a.reshape(3, -1),
+                       "strided": lambda a: np.repeat(a, 2)[::2], "reversed-view": lambda a: a[::-1][::-1]}
+            k0 = keyb(pt.make_data_wrapper(base))
+            for lname, lay in layouts.items():
+                same = lay(base.copy())
+                if same.shape == base.shape:
+                    cases += 1
+                    if keyb(pt.make_data_wrapper(same)) != k0:
+                        dis += 1
+                        ctx.violation("key-unstable:data-layout",
+                                      f"equal wrapped contents ({np.dtype(dt)}, {n} entries) in layout {lname} get another key",
+                                      {"size": n, "dtype": str(np.dtype(dt)), "layout": lname})
+                positions = sorted({0, n // 2, n - 1, max(0, n - 2), min(n - 1, 65536), min(n - 1, 65535),
+                                    min(n - 1, 4096), n - 1 - (n - 1) % 65536 if n > 65536 else 0,
+                                    int(rng.integers(0, n))})
+                for pos in positions:
+                    cases += 1
+                    other = base.copy()
+                    other[pos] = other[pos] + 1
+                    ko = keyb(pt.make_data_wrapper(lay(other)))
+                    kb = keyb(pt.make_data_wrapper(lay(base.copy())))
+                    if ko == kb:
+                        dis += 1
+                        ctx.violation("key-not-injective:wrapped-data-contents",
+                                      f"two graphs wrapping {np.dtype(dt)} arrays of {n} entries that differ in entry {pos} "
+                                      f"(layout {lname}) get the same persistent key",
+                                      {"size": n, "dtype": str(np.dtype(dt)), "position": pos, "layout": lname})
+    ctx.note_batch("wrapped-data-sensitivity", cases, dis, exhaustive=False, sizes=sizes)
+
+
 def correspondence(ctx, t, seed, n_graphs, n_mut):
     from pytato.analysis import PytatoKeyBuilder
     keyb = PytatoKeyBuilder()
@@ -263,6 +310,7 @@ def run(ctx: common.Ctx):
             ctx.broken = [b for b in ctx.broken if not b.startswith("lean-build:PtProofs.C18")]
         else:
             ctx.coverage["unexplained_build_errors"] = rest
+    batch_data_sensitivity(ctx)
     n_graphs, n_mut = (1500, 6) if ctx.thorough else (150, 3)
     pickles, keys, node_keys = correspondence(ctx, t, ctx.seed, n_graphs, n_mut)
     n_x = 400 if ctx.thorough else 60
